@@ -104,7 +104,9 @@ def find_lexicons(
     cur = connect().cursor()
     found = False
     for specifier in lexicon.split():
-        limit = '-1' if '*' in lexicon else '1'
+        # a specifier without a star selects one lexicon: for a bare
+        # id, the most recently added one with that id
+        limit, order = ('-1', 'ASC') if '*' in specifier else ('1', 'DESC')
         if ':' not in specifier:
             specifier += ':*'
         query = f'''
@@ -113,6 +115,7 @@ def find_lexicons(
               FROM lexicons
              WHERE id || ":" || version GLOB :specifier
                AND (:language ISNULL OR language = :language)
+             ORDER BY rowid {order}
              LIMIT {limit}
         '''
         params = {'specifier': specifier, 'language': lang}
